@@ -7,11 +7,13 @@
 set -e
 PATCH=$(readlink -f "$1"); IDS="$2"; TIER="${3:-quick}"
 WT=/tmp/mutwt; MV=/tmp/mutverif
+# a frozen copy of /verif, when present, is what gets tested (keeps seeded-change tests independent of later edits)
+if [ -z "$VERIF_SRC" ] && [ -d /tmp/verif_snapshot_current ]; then VERIF_SRC=/tmp/verif_snapshot_current; fi
 if [ ! -d $WT ]; then git -C /repo worktree add -q --detach $WT HEAD; fi
 git -C $WT checkout -q --detach $(git -C /repo rev-parse HEAD); git -C $WT checkout -q -- . ; git -C $WT clean -qfd
 git -C $WT apply "$PATCH"
 mkdir -p $MV
-rsync -a --delete --exclude .build --exclude out --exclude .git --exclude replay --exclude evidence /verif/ $MV/
+rsync -a --delete --exclude .build --exclude out --exclude .git --exclude replay --exclude evidence ${VERIF_SRC:-/verif}/ $MV/
 mkdir -p $MV/replay $MV/evidence
 sed -i "s#path = \"/repo#path = \"$WT#g" $MV/harness/Cargo.toml
 sed -i "s#target-dir = \"/verif/.build\"#target-dir = \"/tmp/mutbuild\"#" $MV/harness/.cargo/config.toml
